@@ -308,13 +308,21 @@ def mkDictTy (keys : List PyVal) (tys : List Ty) : Ty :=
   | some ks => if validFieldNames ks then .dictDC ks tys else .any
   | Option.none => .any
 
-def dictLitIndex (k : String) : List Expr → Nat → Except Err (Option Nat)
-  | [], _ => .ok Option.none
-  | .const c :: rest, i =>
-    (match c with
-     | .str s => if s = k then .ok (some i) else dictLitIndex k rest (i + 1)
-     | _ => dictLitIndex k rest (i + 1))
-  | _ :: rest, i => dictLitIndex k rest (i + 1)      -- a key that is not a Constant node (-1, (1, 2), …) names no attribute
+/-- the string a key node spells, if it is a string Constant (a key like -1 or (1, 2) is not a Constant node) -/
+def keyName? : Expr → Option String
+  | .const (.str s) => some s
+  | _ => Option.none
+
+/-- index of the LAST entry whose key is the string constant `k` (a later entry of a dictionary display overrides an
+    earlier one) -/
+def dictLitIdx? (k : String) : List Expr → Nat → Option Nat
+  | [], _ => Option.none
+  | e :: rest, i =>
+    match dictLitIdx? k rest (i + 1) with
+    | some j => some j
+    | Option.none => if keyName? e = some k then some i else Option.none
+
+def dictLitIndex (k : String) (es : List Expr) (i : Nat) : Except Err (Option Nat) := .ok (dictLitIdx? k es i)
 
 /-! ### the follower -/
 
